@@ -295,7 +295,7 @@ func (m *mux) pipeline(ctx context.Context, cmd Completed) (resp RedisResult) {
 	slot := slotfn(len(m.muxwires), cmd.Slot(), cmd.NoReply())
 	wire := m.pipe(ctx, slot)
 	if resp = wire.Do(ctx, cmd); isBroken(resp.NonRedisError(), wire) {
-		m.muxwires[slot].wire.CompareAndSwap(wire, m.init)
+		m.reset(slot, wire)
 	}
 	return resp
 }
@@ -306,7 +306,7 @@ func (m *mux) pipelineMulti(ctx context.Context, cmd []Completed) (resp *redisre
 	resp = wire.DoMulti(ctx, cmd...)
 	for _, r := range resp.s {
 		if isBroken(r.NonRedisError(), wire) {
-			m.muxwires[slot].wire.CompareAndSwap(wire, m.init)
+			m.reset(slot, wire)
 			return resp
 		}
 	}
@@ -318,7 +318,7 @@ func (m *mux) DoCache(ctx context.Context, cmd Cacheable, ttl time.Duration) Red
 	wire := m.pipe(ctx, slot)
 	resp := wire.DoCache(ctx, cmd, ttl)
 	if isBroken(resp.NonRedisError(), wire) {
-		m.muxwires[slot].wire.CompareAndSwap(wire, m.init)
+		m.reset(slot, wire)
 	}
 	return resp
 }
@@ -377,7 +377,7 @@ func (m *mux) doMultiCache(ctx context.Context, slot uint16, multi []CacheableTT
 	resps = wire.DoMultiCache(ctx, multi...)
 	for _, r := range resps.s {
 		if isBroken(r.NonRedisError(), wire) {
-			m.muxwires[slot].wire.CompareAndSwap(wire, m.init)
+			m.reset(slot, wire)
 			return resps
 		}
 	}
@@ -389,7 +389,7 @@ func (m *mux) Receive(ctx context.Context, subscribe Completed, fn func(message 
 	wire := m.pipe(ctx, slot)
 	err := wire.Receive(ctx, subscribe, fn)
 	if isBroken(err, wire) {
-		m.muxwires[slot].wire.CompareAndSwap(wire, m.init)
+		m.reset(slot, wire)
 	}
 	return err
 }
@@ -424,6 +424,14 @@ func (m *mux) Addr() string {
 
 func isBroken(err error, w wire) bool {
 	return err != nil && err != ErrClosing && w.Error() != nil
+}
+
+// reset makes the slot dial again after its wire broke. The dead wire is not a broken wire: after Close() every
+// slot holds it, and it may still carry the error of an earlier failed dial instead of ErrClosing.
+func (m *mux) reset(slot uint16, w wire) {
+	if w != m.dead {
+		m.muxwires[slot].wire.CompareAndSwap(w, m.init)
+	}
 }
 
 func slotfn(n int, ks uint16, noreply bool) uint16 {
